@@ -1,4 +1,5 @@
 import RV.Json
+import RV.Drv.Fault
 import RV.Drv.Arith
 import RV.Model.Webhook
 import RV.Oracle.C08
@@ -178,6 +179,7 @@ def tagsOf (rq : Req) (out : Outcome) : List String :=
 
 open RV.Oracle.C08 in
 def handle : Handler := fun op inp impl => do
+  if op == "fault" then return ← RV.Drv.Fault.handleFault ["C06", "C08", "C09"] impl
   let rq ← reqOfJson inp
   match op with
   | "handle" =>
